@@ -193,7 +193,8 @@ class Run:
             self.recipe = recipe
             self.n = recipe["n"]
         else:
-            self.problem = LoggedProblem(recipe["n"], recipe["lower"], recipe["upper"], recipe["obj"], clock=clock)
+            self.problem = LoggedProblem(recipe["n"], recipe["lower"], recipe["upper"], recipe["obj"], clock=clock,
+                                         style=recipe.get("style"))
         if sp_obj is not None:
             # a SolverParameters object the caller also hands to other solvers
             self.sp = sp_obj
